@@ -13,7 +13,7 @@ THEOREMS = [f"Nice.Props.C10.{t}" for t in (
     "C10_wrong_conv_noop",
     "C10_short_packet_noop",
     "C10_long_packet_noop",
-    "C10_parse_options_no_fault",
+    "C10_parse_options_no_fault", "C10_only_window_scale_option_sets_scale",
     "C10_shift_no_fault",
     "C10_swnd_scale_le_14",
     "C10_fifo_ok_preserved",
